@@ -496,6 +496,10 @@ pub fn run(thorough: bool) -> Report {
             (vec!["10 DIM A(5)", "20 PRINT A"], vec![10, 20], vec![("Use of undeclared variable 'A'.", 20)]),
             (vec!["10 A = 3", "20 A(A) = 4"], vec![10, 20], vec![("Use of undeclared array 'A'.", 20)]),
             (vec!["10 S$ = \"\"", "20 PRINT S$;\"x\"", "30 READ N$: PRINT N$", "40 DATA \"\""], vec![10, 20, 30, 40], vec![]),
+            // a warning is about the access, not about the text: subscripts are evaluated first
+            (vec!["10 PRINT A(A(0))"], vec![10], vec![("Use of undeclared array 'A'.", 10)]),
+            (vec!["10 B(1/0) = 1"], vec![10], vec![]),
+            (vec!["10 PRINT D(E(1))"], vec![10], vec![("Use of undeclared array 'E'.", 10), ("Use of undeclared array 'D'.", 10)]),
             (vec!["10 FOR I=1 TO 3", "20 Y = Q", "30 NEXT I"], vec![10, 20, 30, 20, 30, 20, 30], vec![("Use of undeclared variable 'Q'.", 20), ("Use of undeclared variable 'Q'.", 20), ("Use of undeclared variable 'Q'.", 20)]),
         ];
         let mut acc = Acc::default();
